@@ -111,7 +111,8 @@ fn grammar_location(tree: &Tree, rng: &mut Rng) -> Vec<u8> {
                 _ => b"//",
             });
         }
-        out.extend_from_slice(rng.choose(&comps));
+        let c: &Vec<u8> = rng.choose(&comps[..]);
+        out.extend_from_slice(c);
     }
     match rng.below(10) {
         0 => out.extend_from_slice(b"/"),
@@ -146,16 +147,20 @@ fn mutate_location(rng: &mut Rng) -> Vec<u8> {
                     }
                 }
             }
-            4 => s.extend_from_slice(rng.choose(&[&b"x"[..], b".txt", b".", b"/", b"_", b"_9", b"~", b".bak", b"\0.txt"])),
+            4 => { let suf: [&[u8]; 9] = [b"x", b".txt", b".", b"/", b"_", b"_9", b"~", b".bak", b"\0.txt"]; let x: &&[u8] = rng.choose(&suf[..]); s.extend_from_slice(x) },
             5 => {
                 // change the extension
                 if let Some(dot) = s.iter().rposition(|c| *c == b'.') {
                     s.truncate(dot + 1);
-                    s.extend_from_slice(rng.choose(&[&b"dat"[..], b"dat_a", b"onnx", b"onnx_dat", b"DATA", b"data_", b"datax", b"bin", b"", b"onnx_data_", b"onnx_data_77", b"data.1", b"data-3"]));
+                    let exts: [&[u8]; 13] = [b"dat", b"dat_a", b"onnx", b"onnx_dat", b"DATA", b"data_", b"datax", b"bin", b"", b"onnx_data_", b"onnx_data_77", b"data.1", b"data-3"];
+                    let x: &&[u8] = rng.choose(&exts[..]);
+                    s.extend_from_slice(x);
                 }
             }
             _ => {
-                let mut pre = rng.choose(&[&b"./"[..], b"../", b"sub/", b"/", b"\\", b"C:\\", b"..\\", b"m/", b"linkdir/"]).to_vec();
+                let pres: [&[u8]; 9] = [b"./", b"../", b"sub/", b"/", b"\\", b"C:\\", b"..\\", b"m/", b"linkdir/"];
+                let x: &&[u8] = rng.choose(&pres[..]);
+                let mut pre = x.to_vec();
                 pre.extend_from_slice(&s);
                 s = pre;
             }
